@@ -44,6 +44,92 @@ def cfg(name, prog, ends, subs, dev, invs):
 CONFIGS = [("A", ["t1"], ["u1"]), ("B", ["t1"], ["u1"]), ("A", [], ["u1"]), ("B", ["t1", "t2"], ["u1"]), ("C", ["t1"], ["u1", "u2"])]
 
 
+def sequential_binding(c, thorough):
+    """'All subscribe points in a history', sequentially and over the whole operation set of the table: behaviours of Rib.tla
+    (insert / replace / remove / peer down / next-hop flips / soft reset IN under a policy that rewrites the next hop; ADD-PATH
+    path ids, import rejection) through the real TableManager, with one monitoring subscriber from the start and one that
+    subscribes (with snapshot) at a random point.  After every operation each subscriber's fold of the Adj-RIB-In events -
+    before and after import policy, keyed by (peer, prefix, path id) - must be what the model holds."""
+    import random
+    import C20
+    import riblib
+    from riblib import Cfg, SESSIONS, PEER_ADDR
+    ops = ["insert", "remove", "drop", "nhflip", "softreset"]
+    cfgs = [Cfg("s1", ["p1", "p2"], ["a1", "b1", "c1"], {"A": [0, 1], "B": [0], "C": [0, 1]}, ["c1", "c3"], ["n1", "n2"],
+                filt=(False, True), ops=ops),
+            Cfg("s2", ["p1", "p2", "p3"], ["a1", "a2", "b1"], {"A": [0, 1], "B": [0]}, ["c1", "c2"], ["n1", "n2", "n3"],
+                filt=(False, True), ops=ops)]
+    num, depth = (1000, 40) if thorough else (200, 30)
+    rng = random.Random(c.seed + 18)
+    nb, nsteps = 0, 0
+    for cfg in cfgs:
+        walks = riblib.gen_walks(cfg, num, depth, c.seed + 77)
+        if not walks:
+            raise vf.ToolError("RibMC produced no walks")
+        inp = os.path.join(vf.WORK, f"C18.{cfg.name}.fib.in")
+        outp = os.path.join(vf.WORK, f"C18.{cfg.name}.out")
+        exp = []
+        with open(inp, "w") as f:
+            f.write("\n".join(C20.header(cfg)) + "\n")
+            for w in walks:
+                f.write("init\n")
+                exp.append(None)
+                at = rng.randrange(0, len(w))
+                for i, stp in enumerate(w):
+                    if i == at:
+                        f.write("subscribe m1\n")
+                        exp.append({"op": {"k": "subscribe"}, "post": (w[i - 1]["post"] if i else None)})
+                    f.write(C20.op_line(cfg, stp["op"]) + "\n")
+                    exp.append(stp)
+        vf.daemon_test("fib_replay", {"VERIF_IN": inp, "VERIF_OUT": outp}, timeout=2400)
+        got = vf.read_jsonl(outp)
+        if len(got) != len(exp):
+            raise vf.ToolError(f"fib_replay: {len(got)} results for {len(exp)} steps")
+        seen = set()
+        hist, skip = [], False
+        for e, g in zip(exp, got):
+            if e is None:
+                hist, skip = [], False
+                nb += 1
+                continue
+            if skip:
+                continue
+            hist.append(e["op"])
+            nsteps += 1
+            post = e["post"]
+            if post is None:
+                want_pre, want_post = {}, {}
+            else:
+                want_pre = {(PEER_ADDR[SESSIONS[x["sess"]]["peer"]], p, x["rid"]): x["cls"] for p in cfg.prefixes for x in post["ent"][p]}
+                want_post = {(PEER_ADDR[SESSIONS[x["sess"]]["peer"]], p, x["rid"]): (x["cls"], x["nh"])
+                             for p in cfg.prefixes for x in post["ent"][p] if not x["filt"]}
+            bad = None
+            for name, v in g["adj"].items():
+                if not v["eos"]:
+                    bad = ("sequential_no_end_of_snapshot", {"subscriber": name})
+                    break
+                have_pre = {(r[0], r[1], r[2]): r[3] for r in v["pre"]}
+                have_post = {(r[0], r[1], r[2]): (r[3], r[4]) for r in v["post"]}
+                if have_pre != want_pre:
+                    bad = ("sequential_pre", {"subscriber": name, "subscriber_view": sorted(map(list, have_pre.items())),
+                                              "model": sorted(map(list, want_pre.items()))})
+                elif have_post != want_post:
+                    bad = ("sequential_post", {"subscriber": name, "subscriber_view": sorted(map(list, have_post.items())),
+                                               "model": sorted(map(list, want_post.items()))})
+                if bad:
+                    break
+            if bad:
+                skip = True
+                sig = (bad[0], e["op"]["k"])
+                if sig not in seen:
+                    seen.add(sig)
+                    c.violation("c18." + bad[0], dict(bad[1], op=e["op"], why="a subscriber's fold of the Adj-RIB-In events differs from "
+                                                      "the Adj-RIB-In"), {"spec": "Rib (Adj-RIB-In projection)", "config": cfg.describe(), "ops": hist})
+    c.cov["parts"]["sequential"] = {"behaviours": nb, "steps": nsteps}
+    c.cov["evaluations"] += nsteps
+    c.cov["traces_validated_against_impl"] += nb
+
+
 def main(c):
     thorough = c.tier == "thorough"
     invs = ["Reconstructs", "LastEventIsCurrent"]
@@ -139,6 +225,7 @@ def main(c):
     c.cov["rule"] = ("model: all interleavings of two session threads (2-3 calls each, with and without session end), one or two "
                      "subscribers, two shards, three keys, an import policy rejecting one value - exhaustive in TLC; replay: random "
                      "complete interleavings (250 per configuration quick, 500 thorough; in turn plain / with a next hop reported unreachable / with route selection deferred / both) on real threads, each subscriber's events folded by the harness and by the BMP client's own snapshot fold; distinct = replayed behaviours")
+    sequential_binding(c, thorough)
     c.assumptions += ["scheduling points sit right before each shard-lock acquisition: a change that moves work across such a point is "
                       "visible, a change between two statements inside one critical section or before the point is only visible through its "
                       "effect on the final comparison", "drop_stale / LLGR purges / soft_reset_in (which read the subscriber list before "
